@@ -42,6 +42,13 @@ Section Preserve.
     apply IH. unfold drop_output. destruct (ds_life d); auto.
   Qed.
 
+  Lemma P_drop_only ks : forall p h d inv, P p -> P (drop_only p h d inv ks).
+  Proof.
+    induction ks as [|k rest IH]; intros p h d inv H; cbn [drop_only]; [exact H|].
+    destruct (output_desc (p_descs p) d k); [apply IH; exact H|].
+    apply IH. unfold drop_output. destruct (ds_life d); auto.
+  Qed.
+
   Definition Prs (rs : rstate) : Prop := P (rs_p rs).
 
   Section WithRec.
@@ -98,8 +105,9 @@ Section Preserve.
         destruct (args_loop recd rs h inobj ps0 []) as [rs1 [args|e]]; cbn [fst] in *; [|exact H1].
         destruct (cancels (ds_reg d) (get_inv (rs_invs rs1) (r_id (ds_reg d))));
         (destruct (effective_outcome (ds_reg d) (get_inv (rs_invs rs1) (r_id (ds_reg d)))); cbn [fst]; try exact H1;
+        match goal with |- context [stores_any ?a ?b ?c] => destruct (stores_any a b c) end; cbn [fst];
         unfold Prs, with_p, log; cbn [rs_p];
-        apply P_fan_out; exact H1).
+        [apply P_fan_out|apply P_drop_only]; exact H1).
     Qed.
   End WithRec.
 
@@ -122,6 +130,7 @@ Section Preserve.
   Lemma run_inits_preserves ds : forall rs h, Prs rs -> Prs (fst (run_inits rs h ds)).
   Proof.
     induction ds as [|d ds IH]; intros rs h H; cbn [run_inits]; [exact H|].
+    destruct (lookup_i (sc_cache (get_scope (rs_p rs) h)) (ds_ident d)); [apply IH; exact H|].
     pose proof (create_top_preserves rs h d H) as H1.
     destruct (create_top rs h d) as [rs1 [a|e|]]; cbn [fst] in *; [apply IH| |]; exact H1.
   Qed.
